@@ -65,19 +65,27 @@ pub fn inverted_flag_input(b: bool) -> PushInstruction {
 #[derive(Default, Debug, Clone, PartialEq)]
 #[push_macros::push_state(builder)]
 pub struct SplitState {
+    /// foreign attributes in front of, between and after the macro's own (one here, two on `third`)
     #[stack(exec)]
     pub exec: Stack<PushProgram>,
     #[stack(instruction_name = crate::push_vm::verif_alt_state::inverted_flag_input)]
+    #[allow(dead_code)]
     #[stack(ignore_doctests)]
     pub bool: Stack<bool>,
     #[stack(builder_name = number)]
     #[stack(ignore_doctests)]
+    #[allow(dead_code)]
     pub int: Stack<i64>,
+    /// a spare stack
+    #[allow(dead_code)]
     #[stack(instruction_name = crate::push_vm::verif_alt_state::wrapped_input)]
     #[stack(builder_name = spare, ignore_doctests)]
     pub third: Stack<Wrapped>,
+    /// the inputs
     #[input_instructions]
     pub inputs: HashMap<VariableName, PushInstruction>,
+    #[allow(dead_code)]
+    /// the step limit
     #[instruction_step_limit]
     pub steps: usize,
 }
